@@ -83,7 +83,9 @@ Step ==
                /\ UNCHANGED <<kind, codec, transit, written, wend, bad16, liveinfo>>
           [] e.ev = "DecodeErr" ->
                /\ bad15' = IF kind = "omit" THEN bad15 \cup {"message with omitted optional field rejected"} ELSE bad15
-               /\ UNCHANGED <<kind, codec, transit, written, nread, wend, bad16, bad07, liveinfo>>
+               \* the first frame of the scenario is the request without deadline: rejecting it is not "the 10 s default"
+               /\ bad07' = IF kind = "omit" /\ nread = 0 THEN bad07 \cup {"a request that omits its deadline was rejected instead of getting the 10 s default"} ELSE bad07
+               /\ UNCHANGED <<kind, codec, transit, written, nread, wend, bad16, liveinfo>>
           [] e.ev = "Panic" ->
                /\ bad16' = bad16 \cup {IF age >= 430 THEN "Sig_TimerRangeExceededOnLongIdleConnection" ELSE "panic"}
                /\ UNCHANGED <<kind, codec, transit, written, nread, wend, bad15, bad07, liveinfo>>
